@@ -922,13 +922,23 @@ impl<'e, 'd> World<'e, 'd> {
                     Err(e) => OpOut::err(e),
                 }
             }
-            Op::Decoy { font, index, cut } => {
+            Op::Decoy { font, index, cut, set } => {
                 let Some(data) = self.env.decoys.get(font) else {
                     return OpOut::errs("decoy", "file not available".into());
                 };
+                let patched: Vec<u8>;
+                let data: &[u8] = match set {
+                    Some((off, val)) if off + 4 <= data.len() => {
+                        let mut v = (**data).clone();
+                        v[*off..*off + 4].copy_from_slice(&val.to_be_bytes());
+                        patched = v;
+                        &patched
+                    }
+                    _ => &data[..],
+                };
                 let bytes: &[u8] = match cut {
                     Some(c) => &data[..(*c).min(data.len())],
-                    None => &data[..],
+                    None => data,
                 };
                 let fd = match ReadScope::new(bytes).read::<FontData<'_>>() {
                     Ok(fd) => fd,
